@@ -45,7 +45,7 @@ def demo_run(d, k, label):
     if ns:
         rc, out = sh(["cargo", "build", "--offline", "--bin", "naija"], cwd=WT)
         stdin_file = os.path.join(d, f"demo{k}.stdin")
-        stdin = open(stdin_file, errors="replace").read() if os.path.exists(stdin_file) else None
+        stdin = open(stdin_file, errors="replace", newline="").read() if os.path.exists(stdin_file) else None
         for f in ns:
             rc, out = sh([os.path.join(TARGET, "debug", "naija"), f], timeout=60, stdin=stdin)
             res[os.path.basename(f)] = {"rc": rc, "out": out[-1500:]}
